@@ -8,7 +8,9 @@ sys.path.insert(0, os.path.dirname(os.path.abspath(__file__)))
 TRANSLATORS = [
     ('sdof_coeffs', 'py2coq_scalar', 'regenerate'),
     ('sdof_loop', 'py2coq_sdof_loop', 'regenerate'),
+    ('c03_spectra', 'py2coq_c03', 'regenerate'),
     ('quadrature', 'py2coq_numpy', 'regenerate'),
+    ('cavdp', 'py2coq_cavdp', 'regenerate'),
     ('durations', 'py2coq_durations', 'regenerate'),
     ('design_spectra', 'py2coq_design', 'regenerate'),
     ('effects_ir', 'py2ir_effects', 'regenerate'),
@@ -17,6 +19,7 @@ TRANSLATORS = [
     ('c17_signalops', 'py2coq_c17', 'regenerate'),
     ('c17_remove_poly', 'py2coq_rmpoly', 'regenerate'),
     ('c06_fourier', 'py2coq_c06', 'regenerate'),
+    ('c06b_moments', 'py2coq_c06b', 'regenerate'),
     ('helpers', 'py2coq_helpers', 'regenerate'),
     ('c20_interp2d', 'py2coq_interp2d', 'regenerate'),
     ('c07_smoothing', 'py2coq_c07', 'regenerate'),
